@@ -13,7 +13,7 @@ def normalize(src, dst):
             h = json.loads(ln)
             evs = []
             for e in h["events"]:
-                evs.append({"ev": e["ev"], "h": e.get("h", 0), "a": e.get("a", 0), "ok": e.get("ok", True), "type": e.get("type", ""),
+                evs.append({"ev": e["ev"], "h": e.get("h", 0), "a": e.get("a", 0), "s": e.get("s", "-"), "ok": e.get("ok", True), "type": e.get("type", ""),
                             "rule": e.get("rule", "r1"), "wm": e.get("wm", []), "nfired": len(e.get("fired", [])),
                             "views": e.get("views", EMPTY_VIEWS)})
             out.write(json.dumps({"present": [r["name"] for r in h["rules"]], "events": evs}) + "\n")
